@@ -162,10 +162,10 @@ HARNESSES = [
     H("c03_outer_then_inner", c03_outer_then_inner, quick=dict(max_paths=100000, time_budget=80),
       thorough=dict(max_paths=400000, time_budget=300), witness_every=100,
       bounds="enter, operation, enter, operation, exit, exit over the sub-alphabet"),
-    H("c03_nested_free", c03_nested_free, tiers=("thorough",), thorough=dict(max_paths=2000000, time_budget=900), witness_every=300,
+    H("c03_nested_free", c03_nested_free, tiers=("thorough",), thorough=dict(max_paths=2000000, time_budget=300), witness_every=300,
       bounds="nesting depth 2, any 3 steps (enter-inner / operation / end-block) over the full reversible alphabet (sampled)"),
-    H("c03_k2_full", c03_k2_full, tiers=("thorough",), thorough=dict(max_paths=2000000, time_budget=900), witness_every=300,
+    H("c03_k2_full", c03_k2_full, tiers=("thorough",), thorough=dict(max_paths=2000000, time_budget=350), witness_every=300,
       bounds="one context, all pairs of the full reversible alphabet"),
-    H("c03_k3_sub", c03_k3_sub, tiers=("thorough",), thorough=dict(max_paths=2000000, time_budget=900), witness_every=300,
+    H("c03_k3_sub", c03_k3_sub, tiers=("thorough",), thorough=dict(max_paths=2000000, time_budget=300), witness_every=300,
       bounds="nesting depth 2, up to 4 steps over the sub-alphabet"),
 ]
